@@ -4,6 +4,7 @@ import (
 	"bytes"
 	"fmt"
 	"io"
+	"strings"
 
 	"github.com/ipld/go-ipld-prime/datamodel"
 	"github.com/ipld/go-ipld-prime/linking"
@@ -44,7 +45,45 @@ func c10HostileLinkSystem(rng *fw.RNG, g *graphgen.Graph) linking.LinkSystem {
 	return lsys
 }
 
+// c10SubsetSweep: a subset matcher with bounds drawn from the boundary set, compiled from its spec and run
+// straight on string and bytes nodes of EVERY length 0..14 (a panic in the slicing needs one particular
+// relation between the two bounds and the length, which random graphs hardly ever hit).
+func c10SubsetSweep(c *fw.Ctx, rng *fw.RNG) {
+	bounds := []int64{-1 << 63, -1<<63 + 1, -1 << 31, -17, -9, -8, -7, -5, -3, -2, -1, 0, 1, 2, 3, 5, 7, 8, 9, 17, 1 << 31, 1<<63 - 1}
+	for k := 0; k < 12; k++ {
+		from, to := bounds[rng.Intn(len(bounds))], bounds[rng.Intn(len(bounds))]
+		spec := model.Map(model.E(".", model.Map(model.E("subset", model.Map(model.E("[", model.Int(from)), model.E("]", model.Int(to)))))))
+		c.SetCase(func() any { return map[string]any{"family": "subset matcher sweep", "from": from, "to": to} })
+		var sel selector.Selector
+		var err error
+		c.Count("selector_compiles", 1)
+		if c.Guard("C10:CompileSelector", func() { sel, err = selector.CompileSelector(fnode.New(spec)) }) || err != nil || sel == nil {
+			continue
+		}
+		for l := 0; l <= 14; l++ {
+			for _, n := range []datamodel.Node{basicnode.NewString(strings.Repeat("x", l)), basicnode.NewBytes(bytes.Repeat([]byte{7}, l)),
+				basicnode.NewBytesFromReader(bytes.NewReader(bytes.Repeat([]byte{7}, l)))} {
+				c.Count("subset_sweep_walks", 1)
+				c.Guard(fmt.Sprintf("C10:walk-subset:%s", n.Kind()), func() {
+					traversal.WalkMatching(n, sel, func(_ traversal.Progress, m datamodel.Node) error {
+						if m.Kind() == datamodel.Kind_String {
+							m.AsString()
+						} else {
+							m.AsBytes()
+						}
+						return nil
+					})
+				})
+			}
+		}
+	}
+}
+
 func c10Selector(c *fw.Ctx, rng *fw.RNG) {
+	if rng.Chance(1, 12) {
+		c10SubsetSweep(c, rng)
+		return
+	}
 	g := graphgen.Gen(rng, graphgen.Opts{MaxBlocks: 4, MaxDepth: 3, MaxWidth: 4, OddKeys: true, RawBlocks: true, Missing: 1})
 	var spec model.Val
 	var family string
@@ -64,7 +103,9 @@ func c10Selector(c *fw.Ctx, rng *fw.RNG) {
 		s := selgen.Gen(rng, selgen.Opts{MaxDepth: 4, Keys: g.Keys, MaxIndex: 4, Links: g.Links(), Hostile: true})
 		spec = s.Spec()
 	}
-	c.SetCase(func() any { return map[string]any{"family": "selector: " + family, "spec": spec.Dump(), "root": g.Root.Dump()} })
+	c.SetCase(func() any {
+		return map[string]any{"family": "selector: " + family, "spec": spec.Dump(), "root": g.Root.Dump()}
+	})
 	c.Seen(spec.Hash(), true)
 	if c.WantSample() && family != "random tree" && spec.Stats().Nodes < 30 {
 		c.Sample(map[string]any{"family": family, "selector_spec": spec.Dump()})
